@@ -44,6 +44,8 @@ SHAPES = [
     "select a is true, a is not false, a is unknown from t", "select a between 1 and 2 and b not between 3 and 4 from t",
     "select coalesce(), now(), current_date, current_user from t", "select database()", "select a.b.c.d from t", "select t.* from t",
     "select * from t order by 1, a desc nulls first, b nulls last", "select * from t group by 1 having 1", "select * from t limit 0 offset 0",
+    "select a, ? as x from t where b = ?", "select ? as p", "select :v as x from t", "select (select 1) as s, (1, 2) as tup from t",
+    "select a as `x y`, 'lit' as l, 1 as one, null as n, true as b from t", "select -? from t", "select ? + 1 as p1 from t",
     "select native_query from int1 (select 1)", "select * from int1 (select * from t where a = 'x')",
 ]
 
@@ -103,11 +105,19 @@ def run(tier, seed, replay=None):
     try:
         ensure_static()
         R.obligation('Props/C17.v (make)', True)
-        pass_names, convert, names = handlers_from_source()
     except BrokenTie as e:
-        R.obligation('static development builds / except clause recognised', False)
+        R.obligation('static development builds', False)
         R.violation({'broken': e.what, 'detail': e.detail, 'theorem': 'Props/C17.v'}, nofail=True)
         return R.finish()
+    shape_broken = None
+    try:
+        pass_names, convert, names = handlers_from_source()
+    except BrokenTie as e:
+        # the handler structure is no longer the one the theorem is about: keep exploring for a concrete leak with the
+        # structure the theorem assumes, and report the broken tie only if none is found
+        shape_broken = e
+        pass_names, convert, names = ['SQLAlchemyError', 'NotImplementedError'], True, ['SQLAlchemyError', 'NotImplementedError']
+    R.obligation('try / except structure of get_exec_params recognised', shape_broken is None)
     other_ids = {}
 
     def cls_term(e):
@@ -254,10 +264,6 @@ def run(tier, seed, replay=None):
         R.violation({'what': 'the try / except structure of get_exec_params is not the one the contract theorem is about',
                      'read_from_source': {'pass': pass_names, 'convert': convert, 'caught': names}, 'theorem': 'Props/C17.v: C17_contract_holds'},
                     nofail=True)
-    if corr_bad:
-        sql, d, raw, a, b = rows[corr_bad[0]]
-        R.violation({'what': f'model of the fallback control flow disagrees with get_string on `{sql}` ({d}): raw {raw}, observed {a} / {b}',
-                     'theorem': 'C17 correspondence (Model/Fallback.get_string)'}, nofail=True)
     # ---- leaks and mutations
     for (cls, where, fb), (sql, d, msg) in sorted(leaks.items(), key=str):
         fd = [f for f in findings if f['classifier'].get('kind') == 'leak' and [cls, where] in f['classifier']['sites']]
@@ -273,6 +279,13 @@ def run(tier, seed, replay=None):
             R.known_finding(f'{fd[0]["id"]}: {fd[0]["what"]}')
         else:
             R.violation({'sql': sql, 'dialect': d, 'tree_before': b[:300], 'tree_after': a[:300], 'what': 'rendering changed the tree it was given'})
+    if corr_bad and not any(not nf for _, nf in R.violations):
+        sql, d, raw, a, b = rows[corr_bad[0]]
+        R.violation({'what': f'model of the fallback control flow disagrees with get_string on `{sql}` ({d}): raw {raw}, observed {a} / {b}',
+                     'theorem': 'C17 correspondence (Model/Fallback.get_string)'}, nofail=True)
+    if shape_broken is not None and not any(not nf for _, nf in R.violations) and not R.violations:
+        R.violation({'what': shape_broken.what, 'detail': shape_broken.detail, 'theorem': 'Props/C17.v: C17_contract_holds (instance read from the source)'},
+                    nofail=True)
     R.obligation('judge: no class outside the contract escapes, no tree is mutated (except listed findings)',
                  not any(not nf for _, nf in R.violations))
     R.cov['evaluations'] = stats['calls']
